@@ -142,5 +142,20 @@ def delete (es : Entries) (k : Bytes) : Entries :=
 /-- `Baggage::GetValue` -/
 def get (es : Entries) (k : Bytes) : Option Bytes := (es.find? (·.1 == k)).map (·.2)
 
+/-- `Baggage(const T &keys_and_values)` (→ `KeyValueProperties(const T &)`): the pairs of the caller's container in
+    order, each kept as a NUL-terminated copy; no validity check, capacity = the container's size -/
+def ofPairs (kvs : List (Bytes × Bytes)) : Entries :=
+  (kvs.foldl (fun p e => p.add (cstr e.1) (cstr e.2)) (⟨kvs.length, []⟩ : KvProps)).entries
+
+/-- the loop of `KeyValueProperties::GetAllEntries(callback)` for a callback that answers `false` at its `stop`-th call
+    (`stop = 0`: never): the entries handed to the callback so far, and the result -/
+def visitLoop (stop : Nat) : Entries → Nat → Entries → Entries × Bool
+  | [], _, seen => (seen, true)
+  | e :: t, calls, seen =>
+    if calls + 1 = stop then (seen ++ [e], false) else visitLoop stop t (calls + 1) (seen ++ [e])
+
+/-- `Baggage::GetAllEntries` -/
+def visit (es : Entries) (stop : Nat) : Entries × Bool := visitLoop stop es 0 []
+
 end Baggage
 end Otel
